@@ -18,6 +18,31 @@ CLAIMED = {
     ),
 }
 
+CLAIMED.update({
+    "C18": (
+        "Coq proof by induction over domains/chunks of a hand model of ngrid.py + exact integer correspondence",
+        "16 theorems (axiom-free, any semiring incl. R and Z): itertools.product order/set, chunk concatenation and shape, "
+        "non-vectorised result independent of every chunk size >= 1 and equal to the nested sum, vectorised = nested sum, "
+        "separable integrands factorise, size/order specs, repeated-grid mode = k copies. The hand model (generators, chunk "
+        "alignment, partial application over the last domain) is tied to the code by exact integer correspondence evaluated by "
+        "vm_compute (points, weights, sizes, all chunk sizes, both routes).",
+        "Trusted: Coq kernel+vm_compute; hand model of MultiDomainGrid tied by sampled exact correspondence (integer grids, "
+        "integrands as monomial data); IEEE rounding is outside the model (exact integers are used).",
+        "DESIGN.md section 6 C18",
+    ),
+    "C14": (
+        "Coq proof over the order generators re-translated from utils.py each run + exact/oracle correspondence of Grid.moments",
+        "12 theorems: the Cartesian / pure / pure-radial / radial order lists (generator translated from the Python source on every "
+        "run) are exactly the documented sets in Horton order without duplicates for every order; (l,m)->row index arithmetic is the "
+        "position in the order list; every entry of the moments model is the quadrature of f times the basis function about the "
+        "centre for all four types and any number of centres; dipole helper formula. Model of Grid.moments tied by exact Z "
+        "correspondence (Cartesian) and by bigQ model + independent closed-form solid harmonics (pure types).",
+        "Trusted: Coq kernel+vm_compute; the ast translator for generate_orders_horton_order (validated by exact correspondence for "
+        "orders 0..8/12); solid-harmonic oracle hypothesis `solid_rows` (validated numerically each run); stdlib real axioms for dipole_spec.",
+        "DESIGN.md section 6 C14",
+    ),
+})
+
 NOT_YET = {
     # pid: reason (kept current; a property moves to CLAIMED once its check is green on the unchanged tree)
 }
